@@ -15,7 +15,7 @@ From V Require Import Beacon.Impl.Flat Beacon.Impl.Registry Beacon.Impl.Justific
 From V Require Import Beacon.Refine.ListLemmas Beacon.Refine.RegistryRefine Beacon.Refine.JustificationRefine Beacon.Refine.FinalRefine
   Beacon.Refine.SlashingsRefine Beacon.Refine.EpochCompose Beacon.Refine.AltairDomain Beacon.Refine.AltairRefine
   Beacon.Refine.Phase0Refine Beacon.Refine.SyncRotationRefine Beacon.Refine.UpgradesRefine.
-From V Require Shuffle.ShuffleArith Shuffle.ShuffleIndexProofs.
+From V Require Shuffle.ShuffleArith Shuffle.ShuffleIndexProofs Beacon.Proofs.ShuffleBridge.
 Import ListNotations RecordSetNotations.
 Local Open Scope list_scope.
 Local Open Scope N_scope.
@@ -118,6 +118,70 @@ Section MoreShapes.
   Proof. intros [H1 H2 H3 H4 H5 H6 H7 H8 H9 H10 H11 H12 H13 H14 H15]. constructor; assumption. Qed.
 End MoreShapes.
 
+(* ================= inactivity scores after process_inactivity_updates: at most BIAS above the old ones ================= *)
+Section InactDerive.
+  Variable E : Env.
+  Notation c := (cfg E).
+
+  Lemma fold_updN_once (g : N -> N -> N) (B : N) : (forall i s, g i s <= s + B) ->
+    forall l, NoDup l -> forall sc j y,
+      nthN (fold_left (fun sc i => updN sc i (g i)) l sc) j = Some y ->
+      exists x, nthN sc j = Some x /\ y <= x + B /\ (~ In j l -> y = x).
+  Proof.
+    intros Hg. induction l as [|i l IH]; intros Hnd sc j y Hy; cbn [fold_left] in Hy.
+    - exists y. split; [exact Hy|]. split; [lia|reflexivity].
+    - inversion Hnd as [|? ? Hni Hnd']; subst.
+      destruct (IH Hnd' _ j y Hy) as (x' & Hx' & Hle & Heq).
+      destruct (N.eq_dec i j) as [->|Hne].
+      + rewrite lf_nthN_updN_same in Hx'. destruct (nthN sc j) as [x|] eqn:Ex; cbn [option_map] in Hx'; [|discriminate].
+        inversion Hx'; subst x'. exists x. split; [reflexivity|].
+        rewrite (Heq Hni). split; [apply Hg|]. intros Hn. exfalso. apply Hn. left. reflexivity.
+      + rewrite lf_nthN_updN_other in Hx' by exact Hne. exists x'. split; [exact Hx'|]. split; [exact Hle|].
+        intros Hn. apply Heq. intros Hin. apply Hn. right. exact Hin.
+  Qed.
+
+  Lemma NoDup_map_fst_filter {A B} (p : A * B -> bool) (l : list (A * B)) : NoDup (map fst l) -> NoDup (map fst (filter p l)).
+  Proof.
+    induction l as [|x l IH]; intros H; cbn [filter map] in *; [constructor|]. inversion H as [|? ? Hni Hnd]; subst.
+    destruct (p x); [|apply IH; exact Hnd]. cbn [map]. constructor; [|apply IH; exact Hnd].
+    intros Hin. apply Hni. apply in_map_iff in Hin. destruct Hin as (y & Hy & Hyin). apply filter_In in Hyin.
+    apply in_map_iff. exists y. split; [exact Hy|apply Hyin].
+  Qed.
+  Lemma map_fst_combine_seqN {A} (vs : list A) : forall s, map fst (combine (seqN s (length vs)) vs) = seqN s (length vs).
+  Proof. induction vs as [|v vs IH]; intros s; cbn [length seqN combine map fst]; [reflexivity|]. rewrite IH. reflexivity. Qed.
+  Lemma eligible_NoDup st : NoDup (get_eligible_validator_indices E st).
+  Proof.
+    unfold get_eligible_validator_indices. cbv zeta. apply NoDup_map_fst_filter. unfold indices.
+    rewrite map_fst_combine_seqN. apply ShuffleBridge.seqN_NoDup.
+  Qed.
+
+  Lemma inact_scores_bound s1 s2 : Epoch.process_inactivity_updates E s1 = Some s2 ->
+    forall j y, nthN (inactivity_scores s2) j = Some y ->
+    exists x, nthN (inactivity_scores s1) j = Some x /\ y <= x + INACTIVITY_SCORE_BIAS c.
+  Proof.
+    unfold Epoch.process_inactivity_updates. destruct (get_current_epoch E s1 =? GENESIS_EPOCH).
+    { intros H; inversion H; subst. intros j y Hy. exists y. split; [exact Hy|lia]. }
+    destruct (get_unslashed_participating_indices E s1 _ _) as [tidx|]; [|discriminate].
+    intros H; inversion H; subst s2. clear H. cbn [inactivity_scores set]. intros j y Hy.
+    destruct (fold_updN_once (fun i s => let s := if memN i tidx then s - N.min 1 s else s + INACTIVITY_SCORE_BIAS c in
+                                         if is_in_inactivity_leak E s1 then s else s - N.min (INACTIVITY_SCORE_RECOVERY_RATE c) s)
+                             (INACTIVITY_SCORE_BIAS c)) with (l := get_eligible_validator_indices E s1) (sc := inactivity_scores s1) (j := j) (y := y)
+      as (x & Hx & Hle & _).
+    - intros i s. cbv zeta. destruct (memN i tidx), (is_in_inactivity_leak E s1); lia.
+    - apply eligible_NoDup.
+    - exact Hy.
+    - exists x. split; assumption.
+  Qed.
+
+  Definition score_of (st : BeaconState) (i : N) : N := match nthN (inactivity_scores st) i with Some s => s | None => 0 end.
+  (* pre-state form of InactBounds: the denominator, and effective balance times (score + bias) *)
+  Record InactPre (f : fork) (st : BeaconState) : Prop := mkInactPre {
+    ip_den : INACTIVITY_SCORE_BIAS c * inactivity_penalty_quotient E f < two64;
+    ip_den0 : INACTIVITY_SCORE_BIAS c * inactivity_penalty_quotient E f <> 0;
+    ip_num : forall i, i < N.of_nat (length (validators st)) ->
+             eff_bal st i * (score_of st i + INACTIVITY_SCORE_BIAS c) < two64 }.
+End InactDerive.
+
 (* ================= the head of ProcessEpoch: attester data, justification, (inactivity,) rewards ================= *)
 Section Head.
   Variable E : Env.
@@ -173,7 +237,8 @@ Section Head.
                  get_total_balance E st idx * 3 < two64) ->
     (forall s, In s (inactivity_scores st) -> s + INACTIVITY_SCORE_BIAS c < two64) ->
     FlagBounds E st 0 -> FlagBounds E st 1 -> FlagBounds E st 2 ->
-    (forall s2, spec_rewards_pre f st = Some s2 -> InactBounds E f s2 /\ NoMidSaturation E f s2) ->
+    InactPre E f st ->
+    (forall s2, spec_rewards_pre f st = Some s2 -> NoMidSaturation E f s2) ->
     (s2 <- spec_rewards_pre f st ;; Epoch.process_rewards_and_penalties E f s2) = Some s3 ->
     (exists ad,
       compute_epoch_attester_data c epc (flatten_validators (validators st)) st = Some ad /\
@@ -183,7 +248,7 @@ Section Head.
         process_epoch_rewards_and_penalties c f epc ad s2 = Some s3) /\
     head_shape st s3 /\ cp_epoch (finalized_checkpoint s3) <= get_previous_epoch E st /\ lengths_inv f s3.
   Proof.
-    intros Hf HL HA HJ Hsp Hsc Hscores Hb0 Hb1 Hb2 Hmid H.
+    intros Hf HL HA HJ Hsp Hsc Hscores Hb0 Hb1 Hb2 HIP Hmid H.
     destruct (attester_data_refines E st epc HA) as (ad & Had & Hm1 & Hm2 & Hm3 & Hm4 & Hm5 & Hstk & Hcur).
     unfold spec_rewards_pre in H, Hmid.
     destruct (process_justification_and_finalization E f st) as [s1|] eqn:E1; [|discriminate].
@@ -222,13 +287,22 @@ Section Head.
       repeat split; assumption. }
     pose proof (li_process_inactivity_updates E f _ _ E2 (li_process_justification_and_finalization E f f _ _ E1 HL)) as HL2.
     pose proof (spec_inactivity_shape E _ _ E2) as Sh2.
+    pose proof (inact_scores_bound E _ _ E2) as Hscb.
     set (sc := inactivity_scores s2) in *.
     assert (Hlsc : length sc = length (validators st)).
     { destruct HL2 as [_ HL2]. destruct HL2 as (_ & _ & HL2); [destruct f; [contradiction| | | |]; reflexivity|].
       unfold sc. rewrite HL2, Sh2. reflexivity. }
     clearbody sc. subst s2.
     (* --- rewards and penalties --- *)
-    destruct (Hmid _ eq_refl) as [HIB HNS].
+    pose proof (Hmid _ eq_refl) as HNS.
+    assert (HIB : InactBounds E f ((set_just st pj cj fin bits) <| inactivity_scores := sc |>)).
+    { destruct HIP as [Hd Hd0 Hnum]. constructor; [exact Hd|exact Hd0|].
+      intros i Hi. cbn [inactivity_scores set].
+      destruct (nthN sc i) as [y|] eqn:Ey; [|rewrite N.mul_0_r; reflexivity].
+      destruct (Hscb i y Ey) as (x & Hx & Hle).
+      specialize (Hnum i Hi). unfold score_of in Hnum.
+      change (nthN (inactivity_scores st) i = Some x) in Hx. rewrite Hx in Hnum.
+      change (eff_bal st i * y < two64). nia. }
     assert (RR : process_epoch_rewards_and_penalties c f epc ad ((set_just st pj cj fin bits) <| inactivity_scores := sc |>) = Some s3).
     { rewrite (altair_rewards_refines E f _ epc ad Hf); try assumption.
       - apply AltairHyps_scores; [exact Hlsc|exact HA1].
@@ -527,6 +601,7 @@ Section Assemble.
     ei_count : N.of_nat (length (validators st)) < max64;
     ei_scores : forall s, In s (inactivity_scores st) -> s + INACTIVITY_SCORE_BIAS c < two64;
     ei_flags : f <> Phase0 -> FlagBounds E st 0 /\ FlagBounds E st 1 /\ FlagBounds E st 2;
+    ei_inact : f <> Phase0 -> InactPre E f st;
     ei_tail : TailPre E f st (cx_epc cx);
     ei_sync : f <> Phase0 -> SyncHyps E pubkey_ok st (cx_sync cx);
     ei_lookahead : 1 <= MAX_SEED_LOOKAHEAD c;
@@ -539,7 +614,7 @@ Section Assemble.
     s2 <- spec_rewards_pre E f st ;; Epoch.process_rewards_and_penalties E f s2.
   Record MidBounds (f : fork) (st : BeaconState) : Prop := mkMidBounds {
     mb_rewards : forall s2, spec_rewards_pre E f st = Some s2 ->
-                 match f with Phase0 => P0Bounds E s2 | _ => InactBounds E f s2 /\ NoMidSaturation E f s2 end;
+                 match f with Phase0 => P0Bounds E s2 | _ => NoMidSaturation E f s2 end;
     mb_eff : forall s3 s6, spec_head f st = Some s3 -> spec_eff_pre E f s3 = Some s6 ->
              forall b, In b (balances s6) -> b + down_thr E < two64 }.
 
@@ -619,7 +694,7 @@ Section Assemble.
     Epoch.process_epoch E f st = Some st' ->
     process_epoch_altair E pubkey_ok fuel f cx st = Ok st'.
   Proof.
-    intros Hf [HL Hfam HJ Hsp Hsc Hcnt Hscores Hflags HT Hsync HW Hfar] [Hmr Hme] Hfuel H.
+    intros Hf [HL Hfam HJ Hsp Hsc Hcnt Hscores Hflags Hinact HT Hsync HW Hfar] [Hmr Hme] Hfuel H.
     pose proof (process_epoch_frame E f st st' HL H) as HEF.
     rewrite process_epoch_decompose in H.
     destruct (spec_head f st) as [s3|] eqn:E3; [|discriminate].
@@ -632,12 +707,12 @@ Section Assemble.
                                get_total_balance E st idx * 3 < two64) by (destruct f; [contradiction| | | |]; exact Hsp).
     assert (Hsc' : forall idx, get_unslashed_participating_indices E st TIMELY_TARGET_FLAG_INDEX (get_current_epoch E st) = Some idx ->
                                get_total_balance E st idx * 3 < two64) by (destruct f; [contradiction| | | |]; exact Hsc).
-    assert (Hmid : forall s2, spec_rewards_pre E f st = Some s2 -> InactBounds E f s2 /\ NoMidSaturation E f s2).
+    assert (Hmid : forall s2, spec_rewards_pre E f st = Some s2 -> NoMidSaturation E f s2).
     { intros s2 H2. specialize (Hmr s2 H2). destruct f; [contradiction| | | |]; exact Hmr. }
     assert (H' : Epoch.process_sync_committee_updates E (Epoch.process_participation_flag_updates s10) = Some st')
       by (destruct f; [contradiction| | | |]; exact H).
     clear H. destruct (Hflags Hf) as (Hb0 & Hb1 & Hb2).
-    destruct (altair_head_refines E f st (cx_epc cx) s3 Hf HL HA HJ Hsp' Hsc' Hscores Hb0 Hb1 Hb2 Hmid E3)
+    destruct (altair_head_refines E f st (cx_epc cx) s3 Hf HL HA HJ Hsp' Hsc' Hscores Hb0 Hb1 Hb2 (Hinact Hf) Hmid E3)
       as ((ad & Had & s1 & s2 & EJ & EI & ER) & Sh3 & Hfin3 & HL3).
     unfold head_shape in Sh3.
     set (pj := previous_justified_checkpoint s3) in *. set (cj := current_justified_checkpoint s3) in *.
@@ -676,7 +751,7 @@ Section Assemble.
     intros HI HM Hfuel H.
     destruct f; try (apply altair_family_refines; [discriminate|assumption..]).
     (* ---------- phase0 ---------- *)
-    destruct HI as [HL Hfam HJ Hsp Hsc Hcnt Hscores Hflags HT Hsync HW Hfar]. destruct HM as [Hmr Hme].
+    destruct HI as [HL Hfam HJ Hsp Hsc Hcnt Hscores Hflags Hinact HT Hsync HW Hfar]. destruct HM as [Hmr Hme].
     rewrite process_epoch_decompose in H.
     destruct (spec_head Phase0 st) as [s3|] eqn:E3; [|discriminate].
     destruct (spec_tail E Phase0 s3) as [s10|] eqn:E10; [|discriminate].
